@@ -179,17 +179,26 @@ class Ctx:
                 import resource
                 def pre():
                     resource.setrlimit(resource.RLIMIT_AS, (vmem_kb * 1024, vmem_kb * 1024))
-            p = subprocess.run(cmd, input="\n".join(chunk) + "\n", stdout=subprocess.PIPE,
-                               stderr=subprocess.PIPE, text=True, timeout=timeout, env=env,
-                               preexec_fn=pre)
-            outl = p.stdout.split("\n")
+            # a hang (non-termination) must surface as a result for the line being processed, not as a stuck check
+            tmo = min(timeout, int(os.environ.get("VERIF_CASE_TIMEOUT", "600" if self.tier == "quick" else "3000")))
+            pr = subprocess.Popen(cmd, stdin=subprocess.PIPE, stdout=subprocess.PIPE, stderr=subprocess.PIPE, text=True,
+                                  env=env, preexec_fn=pre)
+            timed_out = False
+            try:
+                so, se = pr.communicate("\n".join(chunk) + "\n", timeout=tmo)
+            except subprocess.TimeoutExpired:
+                pr.kill()
+                so, se = pr.communicate()
+                timed_out = True
+            outl = (so or "").split("\n")
             if outl and outl[-1] == "":
                 outl.pop()
-            if p.returncode != 0 or len(outl) != len(chunk):
-                # the process died: mark the first unanswered line
-                outl = outl + ["CRASH rc=%d %s" % (p.returncode, p.stderr.strip().replace("\n", " | ")[-300:])]
+            if timed_out or pr.returncode != 0 or len(outl) != len(chunk):
+                # the process died or hung: mark the first unanswered line
+                why = "TIMEOUT after %ds (non-termination?)" % tmo if timed_out else "rc=%d %s" % (pr.returncode, (se or "").strip().replace("\n", " | ")[-300:])
+                outl = outl[:len(chunk)] + ["CRASH " + why]
                 outl += ["NORESULT"] * (len(chunk) - len(outl))
-            return outl
+            return outl[:len(chunk)]
         with concurrent.futures.ThreadPoolExecutor(shards) as ex:
             outs = list(ex.map(one, chunks))
         res = [None] * len(lines)
